@@ -378,7 +378,9 @@ class Checker:
                           impl=[mean, std])
             return
         if expect == "either" or st is None:
-            if not isnan and not (xb_db[0] - 1e-9 * abs(xb_db[0]) <= mean <= xb_db[1] + 1e-9 * abs(xb_db[1])):
+            # weights at the float64 underflow threshold: NaN or a value; with normal (non-denormal) weights the value is
+            # still a convex combination of the x_i; with denormal weights x * w itself is rounded coarsely: no claim
+            if st is not None and not isnan and not (xb_db[0] - 1e-9 * abs(xb_db[0]) <= mean <= xb_db[1] + 1e-9 * abs(xb_db[1])):
                 self.fail("failing-input", f"{name}-mean-outside-database", f"{name}() mean {mean!r} outside [min x, max x]", oid)
             return
         if isnan or math.isnan(mean) or math.isnan(std):
